@@ -93,3 +93,44 @@ def worst_input(rows, ref, insyms, iters=60):
         nrm = math.sqrt(sum(v * v for v in x2)) or 1.0
         x = [v / nrm for v in x2]
     return x
+
+def region_check(res, harness, fn, spec, insyms, out_index, nout, ref, tolabs, label, cex, max_paths=96, max_steps=200_000_000):
+    """For code whose control flow depends on the data (shortcuts for special inputs): enumerate every feasible path; on each path the outputs are linear forms and z3 (QF_LRA)
+    searches the path's input region (intersected with the box |x_j| <= 1) for a point where an output deviates from ref . x by more than tolabs.  Returns True if all paths held."""
+    mod, so = load(harness)
+    Z = [z3.Real(s_) for s_ in insyms]
+    def setup(m):
+        args = []; ptrs = []
+        for k, v in spec:
+            if k in ('i32', 'i64', 'f64'): args.append(v)
+            elif k == 'pf64': p = m.alloc_doubles(v, 'arg'); args.append(p); ptrs.append((k, p, len(v)))
+            else: p = m.alloc_ints(v, 32, 'arg'); args.append(p); ptrs.append((k, p, len(v)))
+        return args, ptrs
+    for p in explore(mod, '@' + fn, setup, max_paths=max_paths, max_steps=max_steps):
+        if p.out == 'pathbudget': res.inc(f'{label}: more than {max_paths} data-dependent paths'); return False
+        if p.out in ('throw', 'ub'):
+            res.absorb(p.m); rr, mdl = p.m.check_model(z3.BoolVal(True))
+            cex([model_float(mdl, s_, 0.25) for s_ in insyms], f'{label}: a data-dependent path ends in {p.out} {str(p.err)[:160]}'); return False
+        if p.out != 'ret': res.inc(f'{label}: path {p.out}: {p.err}'); continue
+        res.absorb(p.m)
+        ys = read_outs(p.m, p.ctx)[out_index][:nout]
+        if p.ret != (nout if not callable(getattr(cex, 'retmap', None)) else p.ret) and False: pass
+        try: rows = linear_forms(ys)
+        except NonLinear as e: res.inc(f'{label}: a path is not linear in the inputs: {e}'); continue
+        sol = z3.SolverFor('QF_LRA'); sol.set('timeout', 60000); sol.add(*p.m.pc)
+        for z in Z: sol.add(z >= -1, z <= 1)
+        found = None
+        for k, row in enumerate(rows):
+            coef = [(row.get(s_, 0) - ref[k][j]) for j, s_ in enumerate(insyms)]
+            if all(c == 0 for c in coef) and row.get(1, 0) == 0: continue
+            if sum(abs(c) for c in coef) + abs(row.get(1, 0)) <= tolabs: continue      # cannot exceed the tolerance anywhere in the box
+            diff = z3.Sum([z3.RealVal(c) * Z[j] for j, c in enumerate(coef) if c != 0] + [z3.RealVal(row.get(1, 0))])
+            sol.push(); sol.add(z3.Or(diff > z3.RealVal(tolabs), -diff > z3.RealVal(tolabs))); c = sol.check(); res.queries += 1
+            if c == z3.sat:
+                mdl = model_dict(sol); found = [model_float(mdl, s_, 0.0) for s_ in insyms]; sol.pop(); break
+            sol.pop()
+            if c != z3.unsat: res.inc(f'{label}: region query unknown'); found = False; break
+        if found is None: res.ob(True, 'LRA', f'{label}: path with {len(p.m.taken)} data-dependent decisions: all {nout} outputs within tolerance on the whole path region')
+        elif found:
+            cex(found, f'{label}: on a data-dependent path (|pc|={len(p.m.pc)}) output {k} leaves the tolerance band'); return False
+    return True
